@@ -21,6 +21,8 @@ def parseCmd (ws : List String) : Option Cmd :=
   | ["tset", v, d, s] => some (.timerSet (N v) (I d) (I s))
   | ["tcancel", v] => some (.timerCancel (N v))
   | ["tclear"] => some .timersClear
+  | ["tclearo", q] => some (.timersClearOf (N q))
+  | ["taddo", q, d, s] => some (.timerAddOf (N q) (I d) (I s))
   | ["resume", p, s] => some (.resume (N p) (I s))
   | ["intr", p, s, pr] => some (.interrupt (N p) (I s) (I pr))
   | ["stop", p, v] => some (.stop (N p) (I v))
